@@ -59,6 +59,23 @@ mod verif_window {
 		assert!(*w.newest() == (((index as usize) + (size as usize) - 1) % (size as usize)) as u8);
 	}
 
+	// Window::get: Some(&element `i` steps back) for i < size, None otherwise (every size, ring phase and argument)
+	#[kani::proof]
+	#[kani::unwind(256)]
+	fn vk_window_get() {
+		let (size, index) = any_wf();
+		let w = labelled(size, index);
+		let i: PeriodType = kani::any();
+		match w.get(i) {
+			Some(v) => {
+				assert!(i < size);
+				let want = ((index as usize) + (size - 1 - i) as usize) % (size as usize);
+				assert!(*v == want as u8);
+			}
+			None => assert!(i >= size),
+		}
+	}
+
 	#[kani::proof]
 	#[kani::unwind(256)]
 	fn vk_window_push() {
